@@ -310,7 +310,7 @@ class History(RuleBasedStateMachine):
                 _stats.nt(env.chash((self.pool, self.calls)))
             _stats.count('calls_reusing_dicts', getattr(self, 'count_reuse', 0))
             _stats.count('source_file_rewrites', getattr(self, 'rewrites', 0))
-            if _stats.evaluations % 13 == 1:
+            if len(self.distinct) >= 2 and self.repeated and _stats.evaluations % 5 == 0:
                 _stats.sample({'calls': [list(k) + [ok] for k, ok in self.calls[:12]], 'first_program': self.pool[0][:200] if self.pool else None})
 
 
